@@ -4,6 +4,8 @@ def stages(tier):
     return [
         {"name": "cache", "cmd": "cache", "args": ["-prop", "C12"], "check": "Check.Store.check_c12",
          "timeout": 300, "timeout_thorough": 1800},
+        {"name": "concurrent", "cmd": "cacheconc", "args": [], "check": "forced janitor cycle between the two counter updates of a store: bytes metric = byteSize at quiescence (direct; also runs the C01 overlap/stress scenarios)",
+         "timeout": 300, "timeout_thorough": 1200},
     ]
 
 TRUSTED = [
